@@ -49,6 +49,12 @@ def gen_cases(rng, tier):
     if groute == "api" and i % 3 != 0 and i % 4:
       m["api_results"] = [None, "numpy0d", "numpy0d_int", "numpy0d_cached"][i % 4]
     cases.append({"kind": "gulp", "route": route, "model": m, "style": rng.randrange(1 << 30)})
+  # decimal grids: the last row is the cutoff itself (a discontinuity just above it, table data ending AT it), and a
+  # discontinuity 8 ulps to either side of an upper row - judged strictly at that row
+  for i in range(12 if tier == "quick" else 60):
+    v = ["last_row_at_cutoff", "table_ends_at_cutoff", "below_row", "above_row"][i % 4]
+    m, k = spec.near_row_boundary_model(rng, "GULP", v, i // 4, grids=spec.MULDIV_GRIDS if i % 8 < 4 else None)
+    cases.append({"kind": "gulp", "route": ["api_class", "potable", "api_legacy"][(i // 4) % 3], "model": m, "style": rng.randrange(1 << 30), "strict_rows": [k], "near_row_boundary": v})
   for i in range(n):
     route = rng.choice(["api_class", "potable", "potable", "cli" if i % 10 == 0 else "potable"])
     groute = "api" if route.startswith("api") else "potable"
@@ -144,7 +150,9 @@ def run_gulp(case, ctx, rng):
   M = R.Model(model["forms"], model["tables"])
   cutoff, nr = float(model["tab"]["cutoff"]), int(model["tab"]["nr"])
   dr = oracle.grid(cutoff, nr - 1)
-  idx = oracle.sample_rows(nr, rng, 16)
+  idx = sorted(set(oracle.sample_rows(nr, rng, 16)) | set(case.get("strict_rows", ())))
+  if case.get("near_row_boundary"):
+    ctx.cls("near_row_boundary:" + case["near_row_boundary"])
   refs = [oracle.ValueOracle(M, spec.wrap_potable(n) if potable else n) for _, _, n in model["pair"]]
   try:
     for o in refs:
@@ -192,7 +200,7 @@ def run_gulp(case, ctx, rng):
         ctx.violation("gulp_r", "%s row %d: separation %s expected %s (columns are 'energy separation')" % (where, i, r_tok, float(dr * i)), what="gulp_r")
         break
     for i in idx:
-      oracle.check_value(ctx, "gulp_energy", b["rows"][i][0], o, R.F(dr * i), where="%s row %d" % (where, i), fmt="gulp")
+      oracle.check_value(ctx, "gulp_energy", b["rows"][i][0], o, R.F(dr * i), where="%s row %d" % (where, i), fmt="gulp", strict=i in case.get("strict_rows", ()))
     nz = nz or len(set(e for e, _ in b["rows"])) > 1
   ctx.nontrivial(nz)
 
